@@ -6,7 +6,7 @@
    C18_base64_nonempty), which gives the hypothesis-free C18_roundtrip_concrete. *)
 From Coq Require Import Permutation.
 From Oras Require Import Base.Prelude Base.FlatFS Generated.GC18
-  Model.Base64 Model.CredFile Model.CredSave Model.CredConc
+  Model.Utf8 Model.Base64 Model.CredFile Model.CredSave Model.CredConc
   Proofs.Base64 Proofs.CredFile Proofs.CredSave Proofs.CredConc.
 
 (* Put then Get -- after any further history that does not Put/Delete the same
@@ -16,7 +16,7 @@ Theorem C18_roundtrip :
   forall (enc : str -> str) (dec : str -> option str) (ok : str -> Prop),
     (forall s, ok s -> dec (enc s) = Some s) -> (forall s, enc s = [] -> s = []) ->
     forall st a c h,
-      contains colon (c_user c) = false ->
+      put_accepts a c = true ->
       ok (c_user c ++ colon :: c_pass c) ->
       (forall o, In o h -> ~ writes a o) ->
       snd (step enc dec st (Put a c)) = ROk /\
@@ -38,7 +38,7 @@ Print Assumptions C18_base64_nonempty.
 (* the round trip with the real codec: no hypothesis left but "bytes are bytes" *)
 Theorem C18_roundtrip_concrete :
   forall st a c h,
-    contains colon (c_user c) = false ->
+    put_accepts a c = true ->
     Forall (fun x => x < 256) (c_user c ++ colon :: c_pass c) ->
     (forall o, In o h -> ~ writes a o) ->
     snd (step b64_encode b64_decode st (Put a c)) = ROk /\
@@ -61,8 +61,18 @@ Print Assumptions C18_get_all_orders.
 Theorem C18_colon_refused :
   forall (enc : str -> str) (dec : str -> option str) st a c,
     contains colon (c_user c) = true -> step enc dec st (Put a c) = (st, RErrBadCred).
-Proof. exact put_refused. Qed.
+Proof. exact colon_refused. Qed.
 Print Assumptions C18_colon_refused.
+
+(* exactly the credentials FileStore.Put accepts are stored (C18_roundtrip); every
+   other one -- colon in the username, or a server address / refresh token /
+   access token that is not valid UTF-8 and could only be written lossily as
+   JSON -- is refused with ErrBadCredentialFormat and nothing changes *)
+Theorem C18_put_refused :
+  forall (enc : str -> str) (dec : str -> option str) st a c,
+    put_accepts a c = false -> step enc dec st (Put a c) = (st, RErrBadCred).
+Proof. exact put_refused. Qed.
+Print Assumptions C18_put_refused.
 
 (* Delete removes exactly the entry keyed by the address, in memory and in the file *)
 Theorem C18_delete_local :
@@ -88,22 +98,65 @@ Theorem C18_delete_then_get :
 Proof. exact delete_then_get. Qed.
 Print Assumptions C18_delete_then_get.
 
-(* every pre-existing document the store opens, every history: all other
-   top-level keys, a configured credsStore and every auths entry that no
+(* every pre-existing document NewFileStore opens ([open_file]: the document as it
+   is on disk, its keys decoded the way encoding/json does), every history: all
+   other top-level keys, a configured credsStore and every auths entry that no
    operation addressed are in the file exactly as they were (values are opaque:
-   unknown fields included) *)
-Theorem C18_preserves_rest :
+   unknown fields included).  PARTIAL: the top-level keys, the auths keys and
+   credsStore of the document must be valid UTF-8 once unescaped ([file_utf8]);
+   C18_preserves_rest_refuted shows the hypothesis is needed (known finding
+   lone-surrogate: encoding/json reads "k\ud800" as "k" ++ U+FFFD and the first
+   save renames the key) *)
+Theorem C18_preserves_rest_partial :
   forall (enc : str -> str) (dec : str -> option str) f st0 h,
-    open_store f = Some st0 ->
+    file_utf8 f -> open_file f = Some st0 ->
     let stf := run enc dec st0 h in
     (forall k, k <> configFieldAuths -> k <> configFieldCredentialsStore ->
                file_top k (st_file stf) = file_top k f) /\
-    (forall s, s <> [] -> file_top configFieldCredentialsStore f = Some (TCs s) ->
+    ((forall o, In o h -> ~ is_setcs o) ->
+     forall s, s <> [] -> file_top configFieldCredentialsStore f = Some (TCs s) ->
                file_top configFieldCredentialsStore (st_file stf) = Some (TCs s)) /\
     (forall a, (forall o, In o h -> ~ writes a o) ->
                file_entry a (st_file stf) = file_entry a f).
-Proof. exact preserves_rest. Qed.
-Print Assumptions C18_preserves_rest.
+Proof. exact preserves_rest_partial. Qed.
+Print Assumptions C18_preserves_rest_partial.
+
+(* Config.SetCredentialsStore (the fourth saving operation, used by DynamicStore.Put
+   once a native store is detected): the file gets exactly the new credsStore
+   (the key is dropped for ""), the auths and every other key stay; it is a
+   writer operation of the concurrent model like Put and Delete *)
+Theorem C18_set_creds_store :
+  forall (enc : str -> str) (dec : str -> option str) st s,
+    let st' := fst (step enc dec st (SetCs s)) in
+    snd (step enc dec st (SetCs s)) = ROk /\
+    cache_of st' = cache_of st /\
+    file_top configFieldCredentialsStore (st_file st') = cs_value s /\
+    file_top configFieldAuths (st_file st') = Some (TAuths (cache_of st)) /\
+    (forall k, k <> configFieldAuths -> k <> configFieldCredentialsStore ->
+               file_top k (st_file st') = lookup k (m_content (st_mem st))).
+Proof. exact setcs_step. Qed.
+Print Assumptions C18_set_creds_store.
+
+Theorem C18_preserves_rest_refuted :
+  forall (enc : str -> str) (dec : str -> option str),
+    exists f st0 h k,
+      open_file f = Some st0 /\
+      k <> configFieldAuths /\ k <> configFieldCredentialsStore /\
+      file_top k f <> None /\
+      file_top k (st_file (run enc dec st0 h)) = None.
+Proof. exact preserves_rest_refuted. Qed.
+Print Assumptions C18_preserves_rest_refuted.
+
+(* the hypothesis of the partial theorem is satisfiable and then NewFileStore is
+   [open_store] on the same document *)
+Theorem C18_open_file_utf8 :
+  forall f, file_utf8 f -> open_file f = open_store f.
+Proof. exact open_file_store. Qed.
+Print Assumptions C18_open_file_utf8.
+
+Example C18_example_file_utf8 :
+  file_utf8 (Some [(b "auths", TAuths [(b "https://reg.io/", Old (b "{}") VErr)]); (b "credsStore", TCs (b "desktop")); (b "x", TRaw (b "1") KOther)]).
+Proof. repeat constructor. Qed.
 
 (* the file left by any history loads again and yields a store with the same
    entries (the secrets really are in the file) *)
@@ -148,28 +201,55 @@ Theorem C18_save_complete :
 Proof. exact save_complete. Qed.
 Print Assumptions C18_save_complete.
 
-(* one store operation down to the file system: for every state, operation,
-   JSON writer/reader pair with parse (render d) = d, split of the content over
-   write calls and crash cut, a reader of the config path finds the complete old
-   document or the complete new one (then with mode 0600); after the last
-   micro-step it finds the new one; no other file changes *)
+(* one store operation down to the file system: for every state, operation, split
+   of the content over write calls and crash cut, a reader of the config path
+   finds the complete old document or the complete new one (then with mode
+   0600); after the last micro-step it finds the new one; no other file changes.
+   "Finds document d" is up to the representation ([eqv]: fdoc is not canonical
+   and a JSON writer sorts keys); the only JSON fact assumed is [reads_back]: the
+   document THIS operation writes reads back as an equivalent document *)
 Theorem C18_atomic_op :
   forall (enc : str -> str) (dec : str -> option str)
-         (render : fdoc -> str) (parse : str -> option fdoc) (chunking : str -> list str),
-    (forall d, parse (render d) = Some d) -> (forall x, concat (chunking x) = x) ->
+         (render : fdoc -> str) (parse : str -> option fdoc) (eqv : fdoc -> fdoc -> Prop)
+         (chunking : str -> list str),
+    (forall x, concat (chunking x) = x) ->
     forall (dir : list path) (p t : path) st o s pre,
       t <> p -> fget t s = None ->
-      disk_view parse p s = view_of (st_file st) ->
+      reads_back enc dec render parse eqv st o ->
+      disk_is parse eqv p s (st_file st) ->
       crash_cut (op_steps enc dec render chunking dir p t st o) pre ->
       let st' := fst (step enc dec st o) in
       let s' := exec_all s pre in
-      (disk_view parse p s' = view_of (st_file st) \/
-       disk_view parse p s' = view_of (st_file st') /\
+      (disk_is parse eqv p s' (st_file st) \/
+       disk_is parse eqv p s' (st_file st') /\
        (saves st o = true -> exists f, fget p s' = Some f /\ f_mode f = mode_file)) /\
-      (pre = op_steps enc dec render chunking dir p t st o -> disk_view parse p s' = view_of (st_file st')) /\
+      (pre = op_steps enc dec render chunking dir p t st o -> disk_is parse eqv p s' (st_file st')) /\
       (forall q, q <> p -> q <> t -> fget q s' = fget q s).
 Proof. exact atomic_op. Qed.
 Print Assumptions C18_atomic_op.
+
+(* the hypotheses of C18_atomic_op are satisfiable: a (toy) writer/reader pair that
+   sorts the two top-level keys, a Put on an empty store, the cut after the write *)
+Example C18_example_atomic_op :
+  let c := {| c_user := []; c_pass := []; c_refresh := b "t"; c_access := [] |} in
+  let st := {| st_mem := empty_mem; st_file := None |} in
+  let o := Put (b "r") c in
+  let d := [(configFieldAuths, TAuths [(b "r", Fresh [] (b "t") [])])] in
+  let render := fun _ : fdoc => b "{""auths"":{""r"":{""identitytoken"":""t""}}}" in
+  let parse := fun s : str => if str_eqb s (render []) then Some d else None in
+  let s0 := {| fs_files := []; fs_dirs := [] |} in
+  st_file (fst (step b64_encode b64_decode st o)) = Some d /\
+  reads_back b64_encode b64_decode render parse eq st o /\
+  disk_is parse eq (b "cfg") s0 (st_file st) /\
+  disk_is parse eq (b "cfg")
+          (exec_all s0 (op_steps b64_encode b64_decode render (fun x => [x]) [b "dir"] (b "cfg") (b "tmp") st o))
+          (Some d).
+Proof.
+  split; [vm_compute; reflexivity|]. split; [|split].
+  - intros d0 E. vm_compute in E. injection E as <-. eexists. split; [vm_compute; reflexivity|reflexivity].
+  - reflexivity.
+  - eexists. eexists. split; [vm_compute; reflexivity|]. split; [vm_compute; reflexivity|reflexivity].
+Qed.
 
 (* concurrent callers on one store.  Operations are NOT atomic in the model
    (lock, cache update, file write, unlock are separate steps of a transition
